@@ -39,7 +39,7 @@ def run_c01(ctx):
     simexec.install()
     execs = []
     simexec.bind(t, ctx.stats, log=execs, default={"boundary": "process", "auto_workers": 3})
-    sweep = G.gen_sweep(t, max_n=256 if ctx.params.get("tier") == "thorough" else 96, kinds=KINDS, allow_cases=t.flag(1, 4, "with-cases"),
+    sweep = G.gen_sweep(t, max_n=1024, kinds=KINDS, allow_cases=t.flag(1, 4, "with-cases"),
                         max_args=5)
     kind = sweep.kind
     argnames = sweep.case_args + [a for a, _ in sweep.combos] + list(sweep.constants)
